@@ -96,33 +96,29 @@ impl Model for WriterModel {
                 continue;
             }
             let bytes = sink_bytes(&c.sink);
-            let got = String::from_utf8_lossy(&bytes).into_owned();
-            let want_prefix = format!("\r\x1b[2K{}{}{}", body, before.prompt, line);
+            let nch = line.chars().count();
+            let want_bytes = format!("\r\x1b[2K{}{}{}{}", body, before.prompt, line, "\x1b[D".repeat(nch - before.cursor.min(nch)));
+            let got = screen_effect(before.prompt, &line, before.cursor, &bytes);
+            let want = screen_effect(before.prompt, &line, before.cursor, want_bytes.as_bytes());
+            let _ = &n;
             if c.after.text != before.text || c.after.cursor != before.cursor {
                 v.push(Viol::new("C13/write-changed-line", format!("{:?} in [{}]", render, label)));
-            } else if !got.starts_with(&want_prefix) {
-                let cls = if !out.is_empty() && !out.ends_with('\n') && got.contains(&format!("{}{}", out, before.prompt)) {
-                    "C13/missing-line-break-before-prompt"
-                } else if got.contains("\r\n\r\n") && !body.contains("\r\n\r\n") {
+            } else if let Some(u) = &got.unknown {
+                v.push(Viol::new("MACHINERY/emulator-unknown-sequence", u.clone()));
+            } else if got != want {
+                let cls = if got.done == want.done && got.cur == want.cur {
+                    "C13/line-not-redisplayed"
+                } else if got.done.len() < want.done.len() {
+                    "C13/missing-line-break"
+                } else if got.done.len() > want.done.len() {
                     "C13/extra-line-break"
-                } else if got.replace("\r\n", "\n").replace('\n', "\r\n") == want_prefix || got.contains('\n') && !got.replace("\r\n", "").contains('\n') == false {
-                    "C13/lf-not-converted"
                 } else {
                     "C13/write-framing"
                 };
-                v.push(Viol::new(cls, format!("Cli::write {:?} in [{}]: sink got {:?}, expected prefix {:?}", render, label, got, want_prefix)));
-            } else {
-                let rest = &got[want_prefix.len()..];
-                let mut t = Term::default();
-                t.feed_all(rest.as_bytes());
-                if !t.line.is_empty() || t.lfs > 0 || t.unknown.is_some() {
-                    v.push(Viol::new("C13/write-framing", format!("Cli::write {:?} in [{}]: trailing output {:?}", render, label, rest)));
-                } else if n.term.trimmed() != trim_blanks(&format!("{}{}", before.prompt, line)) || n.term.col != before.prompt.chars().count() + before.cursor {
-                    v.push(Viol::new(
-                        "C13/line-not-redisplayed",
-                        format!("Cli::write {:?} in [{}]: terminal {:?}@{} but line {:?} cursor {}", render, label, n.term.trimmed(), n.term.col, line, before.cursor),
-                    ));
-                }
+                v.push(Viol::new(
+                    cls,
+                    format!("Cli::write {:?} in [{}]: screen rows {:?} + {:?}@{}, expected rows {:?} + {:?}@{}", render, label, got.done, got.cur, got.col, want.done, want.cur, want.col),
+                ));
             }
             // (2) inside a handler on Enter (only when the line dispatches)
             let toks = crate::refs::tokens_adm(&line);
@@ -134,18 +130,24 @@ impl Model for WriterModel {
                     v.push(Viol::new("C13/panic", format!("handler {:?} in [{}]: {}", render, label, p)));
                     continue;
                 }
-                let bytes = sink_bytes(&c.sink);
-                let got = String::from_utf8_lossy(&bytes).into_owned();
-                let want = format!("\r\n{}{}", body, before.prompt);
-                if got != want {
-                    let cls = if !out.is_empty() && !out.ends_with('\n') && got == format!("\r\n{}{}", out, before.prompt) {
-                        "C13/missing-line-break-before-prompt"
-                    } else if got.len() > want.len() {
+                let bytes: Vec<u8> = calls.iter().flat_map(|c| sink_bytes(&c.sink)).collect();
+                let want_bytes = format!("\r\n{}{}", body, before.prompt);
+                let got = screen_effect(before.prompt, &line, before.cursor, &bytes);
+                let want = screen_effect(before.prompt, &line, before.cursor, want_bytes.as_bytes());
+                if let Some(u) = &got.unknown {
+                    v.push(Viol::new("MACHINERY/emulator-unknown-sequence", u.clone()));
+                } else if got != want {
+                    let cls = if got.done.len() < want.done.len() {
+                        "C13/missing-line-break"
+                    } else if got.done.len() > want.done.len() {
                         "C13/extra-line-break"
                     } else {
                         "C13/handler-framing"
                     };
-                    v.push(Viol::new(cls, format!("handler output {:?} in [{}]: sink got {:?}, expected {:?}", render, label, got, want)));
+                    v.push(Viol::new(
+                        cls,
+                        format!("handler output {:?} in [{}]: screen rows {:?} + {:?}@{}, expected rows {:?} + {:?}@{}", render, label, got.done, got.cur, got.col, want.done, want.cur, want.col),
+                    ));
                 }
             }
         }
